@@ -18,3 +18,12 @@ pub use sat_solver::SatSolverFactoryFn;
 pub use sat_solver::SolvingListener;
 pub use sat_solver::SolvingResult;
 pub use sat_solver::Variable;
+
+/// Verification hooks: compiled only with `--cfg crustabri_verif` (never in a normal build).
+/// Gives an external test harness access to the buffered SAT solver and to the reader of the DIMACS
+/// instance it hands to its solving function.
+#[cfg(crustabri_verif)]
+pub mod verif_hooks {
+    pub use super::buffered_sat_solver::BufferedSatSolver;
+    pub use super::buffered_sat_solver::DimacsInstanceRead;
+}
